@@ -715,4 +715,74 @@ Section Multi.
         rewrite (Hproj fp r1 b1 E1).
         rewrite (finalize_via_merge fp f _ r1 b1 (group_of_is_homog fp _) E1) in Hfp. inversion Hfp. reflexivity.
   Qed.
+
+  (** The whole result, for any finite set of series (pairwise distinct fingerprints), every response listing its
+      series in an order of its own: the merged, sorted result consists, series by series, of exactly that series'
+      runs of the unsliced grid - and of nothing else. *)
+  Theorem all_series (ss : series) (ord : tr -> series) fuel0 start end_ lookback sl arrival :
+    step <= max_int64 - 2 * hour ->
+    NoDup (map fst ss) -> (forall s, Permutation (ord s) ss) ->
+    query_slices fuel0 start end_ lookback step = Some sl ->
+    Permutation arrival sl ->
+    exists res,
+      sliced_ord (merge_fuel (flat_map (fun s => per_slice step (ord s) s) arrival)) step ord arrival = Some res /\
+      (forall fp pres, In (fp, pres) ss -> group_of fp res = runs_of fp step pres (first_start sl start) end_) /\
+      (forall fp, ~ In fp (map fst ss) -> group_of fp res = []).
+  Proof.
+    intros Hmax Hnd Hord Hq Hperm. unfold sliced_ord. set (L := flat_map (fun s => per_slice step (ord s) s) arrival).
+    assert (forall s, NoDup (map fst (ord s))) as Hnd'.
+    { intro s. apply (Permutation_NoDup (l := map fst ss)); [apply Permutation_map, Permutation_sym, Hord|exact Hnd]. }
+    assert (forall fp' pres', In (fp', pres') ss -> group_of fp' L = flat_map (per_slice1 step fp' pres') arrival) as HG.
+    { intros fp' pres' Hi. unfold L. rewrite group_of_flat_map. apply flat_map_ext_in. intros s _.
+      apply (per_slice_group step s fp' pres' (ord s) (Hnd' s)).
+      apply (Permutation_in (l := ss)); [apply Permutation_sym, Hord|exact Hi]. }
+    assert (forall fp', ~ In fp' (map fst ss) -> group_of fp' L = []) as HG0.
+    { intros fp' Hn. destruct (group_of fp' L) as [|x r] eqn:Eg; [reflexivity|]. exfalso.
+      assert (In x (group_of fp' L)) as Hx by (rewrite Eg; left; reflexivity).
+      apply filter_In in Hx. destruct Hx as [Hx Ex]. apply N.eqb_eq in Ex. unfold L in Hx. apply in_flat_map in Hx.
+      destruct Hx as [s [_ Hx]]. destruct (per_slice_fps step s (ord s) x Hx) as [s' [Hs' Es']]. apply Hn. rewrite <- Ex, <- Es'.
+      apply in_map. apply (Permutation_in (l := ord s)); [apply Hord|exact Hs']. }
+    assert (forall fp' pres' fuel, In (fp', pres') ss -> (length L < fuel)%nat ->
+              finalize fuel step (group_of fp' L) = Some (runs_of fp' step pres' (first_start sl start) end_)) as Hfin.
+    { intros fp' pres' fuel Hi Hl. rewrite (HG fp' pres' Hi).
+      apply (finalize_eq_unsliced step fp' pres' Hstep fuel0 start end_ lookback sl arrival fuel Hmax Hq Hperm).
+      rewrite <- (HG fp' pres' Hi).
+      assert (length (group_of fp' L) <= length L)%nat as Hle.
+      { unfold group_of. generalize L. intro l0. induction l0 as [|x r IH]; cbn [filter length]; [lia|]. destruct (r_fp x =? fp')%N; cbn [length]; lia. }
+      lia. }
+    assert (forall fp' f, (length L < S f)%nat -> merge_ranges (S f) step (group_of fp' L) <> None) as Hsome.
+    { intros fp' f Hl. destruct (in_dec N.eq_dec fp' (map fst ss)) as [Hi|Hn].
+      - apply in_map_iff in Hi. destruct Hi as [[k pr] [Ek Hi]]. cbn [fst] in Ek. subst k.
+        pose proof (Hfin fp' pr (S f) Hi Hl) as Hf. destruct (group_of fp' L) as [|x [|y r]].
+        + rewrite merge_nil. discriminate.
+        + rewrite merge_one. discriminate.
+        + unfold finalize in Hf. destruct (merge_ranges (S f) step (x :: y :: r)); [discriminate|discriminate].
+      - rewrite (HG0 fp' Hn), merge_nil. discriminate. }
+    unfold merge_fuel. set (f := S (length L)).
+    (* the per-series content of the result, whatever the shape of L *)
+    assert (exists res, finalize (S f) step L = Some res /\
+              forall fp, exists r1 b1, merge_ranges (S f) step (group_of fp L) = Some (r1, b1) /\
+                                       group_of fp res = sort_by_start r1) as [res [Eres Hres]].
+    { destruct L as [|x [|y r]] eqn:EL.
+      - exists (canon_sorted []). split; [reflexivity|]. intro fp. exists [], false. split; reflexivity.
+      - exists (canon_sorted [x]). split; [reflexivity|]. intro fp. rewrite group_of_canon_sorted.
+        destruct (merge_ranges (S f) step (group_of fp [x])) as [[r1 b1]|] eqn:E1;
+          [|exfalso; apply (Hsome fp f ltac:(unfold f; cbn [length]; lia)); exact E1].
+        exists r1, b1. split; [reflexivity|].
+        cbn [group_of filter] in *. destruct (r_fp x =? fp)%N.
+        + rewrite merge_one in E1. inversion E1; subst. reflexivity.
+        + rewrite merge_nil in E1. inversion E1; subst. reflexivity.
+      - destruct (multi_merge step f (x :: y :: r) ltac:(unfold f; lia)) as [res0 [b [Em Hproj]]].
+        + intros fp'. apply Hsome. unfold f. lia.
+        + unfold finalize. rewrite Em. exists (canon_sorted res0). split; [reflexivity|]. intro fp.
+          destruct (merge_ranges (S f) step (group_of fp (x :: y :: r))) as [[r1 b1]|] eqn:E1;
+            [|exfalso; apply (Hsome fp f ltac:(unfold f; lia)); exact E1].
+          exists r1, b1. split; [reflexivity|]. rewrite group_of_canon_sorted. apply (Hproj fp r1 b1 E1). }
+    exists res. split; [exact Eres|]. split.
+    - intros fp pres Hin. destruct (Hres fp) as [r1 [b1 [E1 Eg]]]. rewrite Eg.
+      pose proof (Hfin fp pres (S f) Hin ltac:(unfold f; lia)) as Hfp.
+      rewrite (finalize_via_merge fp f _ r1 b1 (group_of_is_homog fp _) E1) in Hfp. inversion Hfp. reflexivity.
+    - intros fp Hn. destruct (Hres fp) as [r1 [b1 [E1 Eg]]]. rewrite Eg.
+      rewrite (HG0 fp Hn), merge_nil in E1. inversion E1; subst. reflexivity.
+  Qed.
 End Multi.
